@@ -289,9 +289,9 @@ func runPreemptCase(c *PreemptCase) {
 	obs.Marked = preemptMarked(w, &c.Spec)
 	obs.Announced = preemptAnnounced(w, idx)
 	if obs.Try != nil && obs.Try.Ok {
-		// the victims in the order of the release request (empty when nothing was announced)
-		for _, l := range obs.Announced {
-			obs.Try.Victims = append(obs.Try.Victims, l...)
+		// the victims in the order of the (first) release request (empty when nothing was announced)
+		if len(obs.Announced) > 0 {
+			obs.Try.Victims = append(obs.Try.Victims, obs.Announced[0]...)
 		}
 	}
 	for i := range c.Spec.Queues {
